@@ -36,7 +36,7 @@ CLASSES = ['too-few-cells', 'bad-date', 'empty-description', 'bad-amount', 'zero
 
 
 def runs(tier):
-    return 320 if tier == 'quick' else 60000
+    return 320 if tier == 'quick' else 30000
 
 
 def parse_file(path, settings, source_name):
